@@ -174,6 +174,9 @@ def gen_case(rng, tier, index, programs_only=False):
         elif r < 0.86:
             lines.append({"d": rng.choice(["string", "ascii"]),
                           "s": rng.choice(["a", "hi", "xyz"])})
+            if rng.random() < 0.06:
+                # a directive that emits nothing (.ascii "") or a lone NUL
+                lines[-1]["s"] = ""
         elif r < 0.89:
             if in_text:
                 lines.append({"d": "zero", "n": 1})
